@@ -18,7 +18,7 @@ def literal_cases():
     out = []
     def integer(src, kind, neg, digits):
         out.append({"src": src, "kind": kind, "neg": neg, "digits": digits, "fbits": [], "frange": True, "cs": [], "terminated": True})
-    decs = ["0", "7", "10", "007", "4095", "4096", "2147483647", "2147483648", "9007199254740993", "9223372036854775806", "9223372036854775807", "9223372036854775808",
+    decs = ["0", "7", "10", "007", "010", "0100", "017", "08", "009", "00", "0777", "4095", "4096", "2147483647", "2147483648", "9007199254740993", "9223372036854775806", "9223372036854775807", "9223372036854775808",
             "9223372036854775809", "18446744073709551615", "18446744073709551616", "99999999999999999999", "123456789012345678901234567890"]
     for d in decs:
         integer(d, "dec", False, [int(c) for c in d])
